@@ -19,14 +19,15 @@ import (
 
 // ConcTask is one self-checking task; exactly one of the sub-cases is set.
 type ConcTask struct {
-	Codec   *CodecCase   `json:"codec,omitempty"`
-	Skip    *SkipSeqCase `json:"skip,omitempty"`
-	TTH     *TTHCase     `json:"tth,omitempty"`
-	Reader  *ReaderCase  `json:"reader,omitempty"`
-	Writer  *WriterCase  `json:"writer,omitempty"`
-	FC      *FCCase      `json:"fc,omitempty"`
-	ReadStr []int        `json:"readstr,omitempty"` // lengths decoded with Binary.ReadString/ReadBinary
-	MapGet  int          `json:"mapget,omitempty"`  // number of Get probes on the shared maps
+	Codec   *CodecCase    `json:"codec,omitempty"`
+	Skip    *SkipSeqCase  `json:"skip,omitempty"`
+	TTH     *TTHCase      `json:"tth,omitempty"`
+	Reader  *ReaderCase   `json:"reader,omitempty"`
+	Writer  *WriterCase   `json:"writer,omitempty"`
+	FC      *FCCase       `json:"fc,omitempty"`
+	Frame   *TTHFrameCase `json:"frame,omitempty"`   // a hand-built TTHeader frame (sections in any order, transforms) decoded and compared with the reference
+	ReadStr []int         `json:"readstr,omitempty"` // lengths decoded with Binary.ReadString/ReadBinary
+	MapGet  int           `json:"mapget,omitempty"`  // number of Get probes on the shared maps
 }
 
 // ConcCase is a set of per-goroutine task lists.
@@ -57,6 +58,13 @@ func runConcTask(g, idx int, tk *ConcTask, sm *strmap.StrMap[int], s2s *strmap.S
 		return runWriterHistory(tk.Writer, &cv, nil)
 	case tk.FC != nil:
 		return checkFastCodec(*tk.FC, &cv)
+	case tk.Frame != nil:
+		for k := 0; k < 20; k++ {
+			if v := checkTTHDecode(*tk.Frame, &cv); v != nil {
+				return v
+			}
+		}
+		return nil
 	case tk.ReadStr != nil:
 		in := make([]byte, 0, 4096)
 		for i, l := range tk.ReadStr {
@@ -194,6 +202,8 @@ func checkConcurrent(c ConcCase, cv *cov) *evid.Violation {
 				kinds["writer"] = true
 			case tk.FC != nil:
 				kinds["fastcodec"] = true
+			case tk.Frame != nil:
+				kinds["tth_frame_with_transforms"] = true
 			case tk.ReadStr != nil:
 				kinds["readstr"] = true
 			case tk.MapGet > 0:
@@ -210,7 +220,13 @@ func checkConcurrent(c ConcCase, cv *cov) *evid.Violation {
 func init() { register("c14_concurrent", checkConcurrent) }
 
 func genConcTask(t *rapid.T) ConcTask {
-	switch rapid.IntRange(0, 7).Draw(t, "task") {
+	switch rapid.IntRange(0, 8).Draw(t, "task") {
+	case 8:
+		// a frame as another implementation could send it: 1..4 transform ids, sections in any order
+		tr := rapid.SliceOfN(rapid.Byte(), 1, 4).Draw(t, "transforms")
+		secs := []tthSection{{id: 0x10, count: 1, ints: []ref.IntKV{{K: 3, V: "v"}}}, {id: 1, count: 1, strs: []ref.StrKV{{K: "k", V: "vv"}}}}
+		b := buildFrame(100, 2, int32(len(tr)), 0, tr, secs, nil)
+		return ConcTask{Frame: &TTHFrameCase{Data: b, Plan: faultio.Plan{Chunks: []int{0}, ErrAt: -1}}}
 	case 0:
 		c := CodecCase{Items: rapid.SliceOfN(rapid.Custom(genItem), 1, 8).Draw(t, "items"), Plan: faultio.Plan{Chunks: []int{rapid.SampledFrom([]int{0, 1, 7, 4096}).Draw(t, "chunk")}, ErrAt: -1}}
 		for i := range c.Items {
